@@ -34,7 +34,8 @@ UNICODE_LINES = ["Mark: æøå", "   ", "\tMark: tab", "Mark: a # c", "# only co
                  "Simulate: Process Time = x", "Simulate: System State = abc", "Simulate: Run Id = 5",
                  "Simulate: Method Status = x", "Simulate: Base = zz", "Simulate: Block = 7", "Simulate: Mark = 7",
                  "Simulate: Clock = abc", "Simulate: Block Time = abc", "Simulate: Scope Time = q", "Simulate: Run Counter = z",
-                 "Simulate off: Run Time", "Watch: Run Time > 1", "Watch: Block > 1", "Watch: Connection Status = Connected", "0.5 Watch: T1 = 1", "    Mark: deep", "CmdA: 5", "CmdB", "Unknown thing: 1"]
+                 "Simulate off: Run Time", "Watch: Run Time > 1", "Watch: Block > 1", "Watch: Connection Status = Connected", "0.5 Watch: T1 = 1", "    Mark: deep", "CmdA: 5", "CmdB", "Unknown thing: 1", "CmdNum: 5",
+                 "CmdNum: lots", "CmdNum: lots", "CmdNum"]
 
 
 def gen_case(ctx: Check) -> dict:
@@ -58,6 +59,24 @@ def gen_case(ctx: Check) -> dict:
     return {"pcode": pcode, "sched": sched}
 
 
+SWEEP_METHODS = ["Mark: a\nCmdNum: lots\nMark: b", "CmdNum: lots", "Mark: a\nFrobnicate\nMark: b",
+                 "Block: B\n    CmdNum: x\n    End block\nMark: c", "Watch: T0 = 0\n    CmdNum: lots\nMark: a",
+                 "CmdB\nCmdNum: lots", "Mark: a\nWait: banana"]
+
+
+def sweep_cases() -> list[dict]:
+    """Stop / Pause / Unpause requested at every tick around a failing instruction."""
+    out = []
+    for m in SWEEP_METHODS:
+        for cmd in ("Stop", "Pause", "Unpause"):
+            for t in range(0, 10):
+                sched = [("tick",)] * t + [("user", cmd)] + [("tick",)] * (12 - t)
+                if cmd != "Stop":
+                    sched += [("user", "Stop")] + [("tick",)] * 5
+                out.append({"pcode": m, "sched": sched})
+    return out
+
+
 def oracle(case) -> list[Failure]:
     from harness.engine_run import EngineRun
     fails: list[Failure] = []
@@ -67,9 +86,13 @@ def oracle(case) -> list[Failure]:
         return [Failure(f"set-method-raised:{type(e).__name__}", case, str(e)[:200])]
     try:
         prev_failed: set = set()
+        stop_age = None      # ticks since a user Stop was accepted (no other user command since)
         for op in case["sched"]:
             if op[0] == "user":
-                run.user(op[1])
+                r = run.user(op[1])
+                # (a Restart issued by the method or the user races with Stop by design: not judged then)
+                restarting = "Restart" in case["pcode"] or any(o[0] == "user" and o[1] == "Restart" for o in case["sched"])
+                stop_age = 0 if (op[1] == "Stop" and r == "ok" and not restarting) else None
             elif op[0] == "inject":
                 run.inject(op[1])
             elif op[0] == "tag":
@@ -79,6 +102,13 @@ def oracle(case) -> list[Failure]:
                 if snap["raised"]:
                     fails.append(Failure("tick-raised:" + snap["raised"].split(":")[0], case, snap["raised"][:300]))
                     return fails
+                if stop_age is not None:
+                    stop_age += 1
+                    if stop_age == 4:
+                        if snap["raw_tags"].get("System State") != "Stopped":
+                            fails.append(Failure("stop-did-not-stop", case,
+                                                 f"System State {snap['raw_tags'].get('System State')!r} four ticks after an accepted Stop"))
+                        stop_age = None
                 failed = {n["id"] for n in snap["nodes"] if n["failed"]}
                 new_failed = failed - prev_failed
                 if new_failed and snap["raw_tags"].get("System State") not in ("Stopped", "Restarting"):
@@ -126,7 +156,7 @@ def run(ctx: Check) -> int:
                 "control commands, injected snippets (valid and invalid) on the real engine; non-trivial = run with "
                 "at least one failed instruction or rejected command.")
     m3_stream(ctx, "interp-m3-malformed", ctx.n(120, 2500), malformed=True)
-    cases = [gen_case(ctx) for _ in range(ctx.n(300, 3000))]
+    cases = sweep_cases() + [gen_case(ctx) for _ in range(ctx.n(300, 3000))]
     ctx.monitor(cases, oracle, impl_timeout=60, timeout_key="tick-hangs")
     ctx.assumptions = ["raise table: interpreter.tick, command_manager.tick, update_calculated_tags and notify_tag_updates "
                        "may raise anything; hwl.read_batch / write_batch may raise HardwareLayerException; every other "
